@@ -67,6 +67,7 @@ func c20Check(c c20Case) (*eng.Fail, string) {
 		return &eng.Fail{Sig: "entrypoint", What: fmt.Sprintf("Entrypoint %#x, file says %#x", ps.Entrypoint(), f.Entry), Case: c}, ""
 	}
 	// expected code image
+	memUndecided := false
 	var code []span
 	for _, s := range f.Sections {
 		if s.Type == elfgen.SHT_PROGBITS && len(s.Data) > 0 && s.Addr != 0 && s.Flags&elfgen.SHF_EXECINSTR != 0 {
@@ -74,11 +75,20 @@ func c20Check(c c20Case) (*eng.Fail, string) {
 		}
 	}
 	var mem []span
-	for _, pr := range f.Progs {
+	fileBytes := f.Bytes()
+	for pi, pr := range f.Progs {
 		if pr.Type != elfgen.PT_LOAD {
 			continue
 		}
 		d := append([]byte{}, pr.Data...)
+		if pr.Claim > 0 {
+			// the header claims more file bytes than the generator placed for it:
+			// the segment holds whatever the file has there, up to its end
+			d = elfgen.ProgFileBytes(fileBytes, pi)
+			if pr.Memsz < uint64(len(pr.Data))+pr.Claim {
+				memUndecided = true // in-memory size below the file size: not decided by the property
+			}
+		}
 		if pr.Memsz > uint64(len(d)) {
 			d = append(d, make([]byte, pr.Memsz-uint64(len(d)))...)
 		}
@@ -101,6 +111,9 @@ func c20Check(c c20Case) (*eng.Fail, string) {
 			continue
 		}
 		outcome += part.name + "-ok "
+		if part.name == "Memory" && memUndecided {
+			continue
+		}
 		if overlapSpans(part.exp) {
 			return &eng.Fail{Sig: part.name + " accepts-overlap", What: fmt.Sprintf("%s succeeds although its blocks overlap: %s", part.name, f), Case: c}, ""
 		}
@@ -160,7 +173,7 @@ func c20Check(c c20Case) (*eng.Fail, string) {
 
 func init() {
 	checks["C20"] = eng.Check{
-		Rule:        "ELF64-LE files written by the harness: type in {NONE, REL, EXEC, DYN, CORE} x <=2 (thorough 3) user sections (type PROGBITS/NOBITS/NOTE x flags {0, ALLOC, ALLOC|EXEC} x addr {0, 0x1000, 0x1004, 0x1008} x size {0,4,8}) x <=2 program headers (type LOAD/NOTE x vaddr {0x1000,0x1004,0x1008} x filesz {0,4,8} x memsz {0,4,8,12} incl. memsz<filesz) — all combinations incl. overlapping and adjacent ones — through elf.NewParser/MachineCode/Memory/Entrypoint/Address. Oracle from the generator's description: REL/CORE/NONE and any overlap must be rejected; whatever loads must equal the description (code = qualifying sections as sorted blocks, adjacent ones not merged; memory = file bytes then zeros; Address(a) for every a in 0xff8..0x1020 = tail of its block or nil). Non-trivial = file for which both images load.",
+		Rule:        "ELF64-LE files written by the harness: type in {NONE, REL, EXEC, DYN, CORE} x <=2 (thorough 3) user sections (type PROGBITS/NOBITS/NOTE x flags {0, ALLOC, ALLOC|EXEC} x addr {0, 0x1000, 0x1004, 0x1008} x size {0,4,8}) x <=2 program headers (type LOAD/NOTE x vaddr {0x1000,0x1004,0x1008} x filesz {0,4,8} x memsz {0,4,8,12} incl. memsz<filesz; plus LOAD headers that claim 4 bytes or 64 KiB more file bytes than were placed for them, i.e. a file extent reaching into the following file content or past the end of the file) — all combinations incl. overlapping and adjacent ones — through elf.NewParser/MachineCode/Memory/Entrypoint/Address. Oracle from the generator's description: REL/CORE/NONE and any overlap must be rejected; whatever loads must equal the description (code = qualifying sections as sorted blocks, adjacent ones not merged; memory = file bytes then zeros; Address(a) for every a in 0xff8..0x1020 = tail of its block or nil). Non-trivial = file for which both images load.",
 		Assumptions: []string{"errors are always acceptable outcomes (the property allows 'reports an error'); crashes are not", "files are well-formed ELF64 containers (corruption is C26's domain)"},
 		Run: func(r *eng.Run) {
 			dir, err := os.MkdirTemp("", "vc20")
@@ -198,6 +211,17 @@ func init() {
 								continue
 							}
 							progs = append(progs, elfgen.Prog{Type: ty, Vaddr: va, Data: mkdata(fs, 0x80+byte(va)), Memsz: ms})
+						}
+					}
+				}
+			}
+			// program headers whose file extent reaches into whatever follows in the file (claim 4) or
+			// past its end (claim 64 KiB): the segment is the bytes the file has there, then zeros
+			for _, va := range []uint64{0x1000, 0x1008} {
+				for _, fs := range []int{0, 4} {
+					for _, claim := range []uint64{4, 1 << 16} {
+						for _, extra := range []uint64{0, 4} {
+							progs = append(progs, elfgen.Prog{Type: elfgen.PT_LOAD, Vaddr: va, Data: mkdata(fs, 0x80+byte(va)), Memsz: uint64(fs) + claim + extra, Claim: claim})
 						}
 					}
 				}
